@@ -12,6 +12,7 @@ import (
 type monC09 struct {
 	deposits map[string][]c09dep // denom -> successful deposits
 	lastEnd  time.Time           // block time of the previous end-of-block
+	stalls   map[int64]c09stall  // clock value (unix ns) -> first end-of-block that fired and left the clock behind
 	curPrev  time.Time           // time of the end-of-block before the current block
 }
 
@@ -19,7 +20,15 @@ type c09dep struct {
 	at, prevEnd time.Time
 }
 
-func newMonC09() *monC09      { return &monC09{deposits: map[string][]c09dep{}, lastEnd: GenesisTime} }
+type c09stall struct {
+	seenAt   time.Time // block time of the end-of-block that fired without moving the clock
+	firstEnd time.Time // end of the first interval counted from the stale clock, under the interval then in force
+	eligible bool      // a chargeable asset existed (its deduction rounded to nothing): the open finding
+}
+
+func newMonC09() *monC09 {
+	return &monC09{deposits: map[string][]c09dep{}, lastEnd: GenesisTime, stalls: map[int64]c09stall{}}
+}
 func (m *monC09) Name() string { return "C09" }
 func (m *monC09) Finish(r *Runner) {}
 
@@ -97,6 +106,7 @@ func (m *monC09) OnStep(r *Runner, st *Step) {
 	}
 	fl := flowsOf(st.Events)
 	charged := false
+	anyEligible := false
 	for _, d := range pre.AssetOrder {
 		a := pre.Assets[d]
 		pa, ok := post.Assets[d]
@@ -130,6 +140,22 @@ func (m *monC09) OnStep(r *Runner, st *Step) {
 				r.Probe("c09_asset_in_warmup_skipped")
 			}
 			continue
+		}
+		anyEligible = true
+		// (f) the charge must not reach back over intervals that ended before the asset's reward start time and
+		// that an earlier end-of-block had already seen elapse (the interval in progress at the start, and
+		// intervals swallowed by a single block gap, are allowed)
+		if sl, stalled := m.stalls[L.UnixNano()]; stalled && !sl.firstEnd.After(a.RewardStartTime) && Td2.LT(Td) {
+			r.Eval("C09.f")
+			cls := "charged-for-warm-up-intervals"
+			if sl.eligible {
+				// the clock had stalled while a chargeable asset existed whose deduction rounded to nothing: open finding
+				cls = "charged-for-warm-up-intervals:after-clock-stall"
+			}
+			r.Violate("C09.f", cls, fmt.Sprintf("asset %s (reward start %s) is charged for %d intervals counted from %s; the interval ending %s lies before its start and had elapsed by the previous end-of-block at %s", d, a.RewardStartTime, n, L, L.Add(I), m.lastEnd))
+			if r.failed() {
+				return
+			}
 		}
 		// (a) exact compounding with interval acceptance
 		r.Eval("C09.a")
@@ -180,10 +206,16 @@ func (m *monC09) OnStep(r *Runner, st *Step) {
 			// (e) never retroactive: no deposit may be charged for an interval that had completely elapsed
 			// and been visible to an earlier end-of-block before the deposit's block began
 			r.Eval("C09.e")
-			firstIntervalEnd := L.Add(I)
+			sl, stalled := m.stalls[L.UnixNano()]
+			firstIntervalEnd := sl.firstEnd
 			for _, dep := range m.deposits[d] {
-				if dep.at.After(L) && dep.prevEnd.After(firstIntervalEnd) {
-					r.Violate("C09.e", "retroactive-charge-after-clock-stall", fmt.Sprintf("asset %s: stake deposited at %s (previous end-of-block %s) is charged for %d interval(s) counted from the stale clock %s; the interval ending %s had elapsed before the deposit", d, dep.at, dep.prevEnd, n, L, firstIntervalEnd))
+				// the deposit arrived after an end-of-block had already fired on this clock value and left it behind
+				if stalled && dep.at.After(sl.seenAt) {
+					ecls := "retroactive-charge"
+					if sl.eligible {
+						ecls = "retroactive-charge-after-clock-stall"
+					}
+					r.Violate("C09.e", ecls, fmt.Sprintf("asset %s: stake deposited at %s (previous end-of-block %s) is charged for %d interval(s) counted from the stale clock %s; the interval ending %s had elapsed before the deposit", d, dep.at, dep.prevEnd, n, L, firstIntervalEnd))
 					if r.failed() {
 						return
 					}
@@ -203,6 +235,15 @@ func (m *monC09) OnStep(r *Runner, st *Step) {
 		r.Probe("c09_clock_moved_without_charge")
 	} else if fires && L2.Equal(L) {
 		r.Probe("c09_clock_stalled")
+		if _, seen := m.stalls[L.UnixNano()]; !seen {
+			m.stalls[L.UnixNano()] = c09stall{seenAt: T, firstEnd: L.Add(I), eligible: anyEligible}
+		}
+		if !anyEligible {
+			// nothing was chargeable at all (no started asset with a positive rate and stake): a clock left behind
+			// here makes whatever becomes chargeable next pay for these elapsed intervals
+			r.Violate("C09.c", "clock-stalled-without-chargeable-asset", fmt.Sprintf("a whole interval elapsed (clock %s, interval %s, block time %s), no asset was chargeable, and the clock was not moved", L, I, T))
+			return
+		}
 	}
 	if !fires && !L.IsZero() && !L2.Equal(L) {
 		r.Violate("C09.c", "clock-moved-early", fmt.Sprintf("no whole interval elapsed (clock %s, interval %s, block time %s) but the clock moved to %s", L, I, T, L2))
